@@ -78,6 +78,8 @@ struct Case {
   std::string cfg;
   uint64_t fed = 0;
   uint64_t ncheck = 0;
+  bool cp_every = false;      // checkpoint after every input (short crafted streams)
+  bool conv_always = false;   // convert copies to every type at every checkpoint
 };
 
 static Val make_val(const Case& C, uint64_t id) {
@@ -142,7 +144,7 @@ static void checkpoint(Case& C, Rng& r, bool final_cp) {
   std::vector<uint32_t> model_sorted;
   if (!m.overflow) { model_sorted.assign(m.distinct.begin(), m.distinct.end()); std::sort(model_sorted.begin(), model_sorted.end()); }
   const std::string ctx0 = C.cfg + " fed=" + std::to_string(C.fed) + " distinct" + (m.overflow ? ">" : "=") + std::to_string(m.distinct.size());
-  const bool do_conv = final_cp || r.chance(m.lg_k >= 16 ? 0.1 : 0.3);
+  const bool do_conv = final_cp || C.conv_always || r.chance(m.lg_k >= 16 ? 0.1 : 0.3);
   uint64_t mode_sig = 0;
   for (Sk& K : C.sks) {
     const hll_sketch& s = *K.s;
@@ -159,6 +161,12 @@ static void checkpoint(Case& C, Rng& r, bool final_cp) {
       count(std::string("mode_") + mode_name(nat.mode));
       count(std::string("mode_") + mode_name(nat.mode) + "_" + tn);
       if (nat.mode == M_LIST) K.seen_list = true;
+      if (nat.coupon_mode()) {
+        if (nat.coupons.size() >= 20200) count("coupon_mode_bounds_checked_ge_20200_coupons");
+        if (nat.coupons.size() >= 40400) count("coupon_mode_bounds_checked_ge_40400_coupons");
+        if (nat.coupons.size() >= 60600) count("coupon_mode_bounds_checked_ge_60600_coupons");
+        if (m.lg_k >= 18 && nat.mode == M_SET) count("set_mode_at_lg_k_ge_18");
+      }
       if (nat.coupon_mode() && !m.overflow) {
         for (auto& q : C.planted) if (m.distinct.count(q.first) && m.distinct.count(q.second))
           count(nat.mode == M_LIST ? "same_address_pair_held_in_list_mode" : "same_address_pair_held_in_set_mode");
@@ -173,6 +181,9 @@ static void checkpoint(Case& C, Rng& r, bool final_cp) {
       mode_sig = mix64(mode_sig, static_cast<uint64_t>(nat.mode) * 4 + static_cast<uint64_t>(K.type));
       if (nat.mode == M_HLL && K.type == 0) {
         count("hll4_hll_checkpoints");
+        if (nat.cur_min >= 1 && nat.num_at_cur_min == (1u << m.lg_k)) count("hll4_all_slots_exactly_at_curmin");
+        if (nat.cur_min >= 2 && nat.num_at_cur_min == (1u << m.lg_k)) count("hll4_all_slots_exactly_at_curmin_ge2");
+        if (nat.cur_min >= 1 && nat.num_at_cur_min < (1u << m.lg_k) && nat.num_at_cur_min * 4 >= (3u << m.lg_k)) count("hll4_most_slots_at_curmin");
         if (nat.cur_min >= 1) count("hll4_curmin_ge1");
         if (nat.cur_min >= 1 && as8.err.empty()) count("hll4_curmin_gt0_read_through_hll8_copy");
         if (nat.cur_min >= 2) count("hll4_curmin_ge2");
@@ -223,6 +234,8 @@ static void checkpoint(Case& C, Rng& r, bool final_cp) {
         VF_CHECK(rel_eq(c.get_estimate(), K.est, 1e-12), kp + "|estimate-differs",
                  ctx + " copy=" + str(c.get_estimate()) + " source=" + str(K.est));
         count("converted_copies");
+        if (K.type == 0 && nat.err.empty() && nat.mode == M_HLL && nat.cur_min >= 1 && nat.num_at_cur_min == (1u << m.lg_k))
+          count(std::string("hll4_all_slots_at_curmin_converted_to_") + type_name(t));
         if (K.type == 0 && nat.err.empty() && nat.mode == M_HLL && nat.cur_min >= 1) count(std::string("hll4_curmin_gt0_converted_to_") + type_name(t));
         if (dc.err.empty() && dc.mode == M_HLL && t == 0 && dc.aux_count > 0) count("converted_to_hll4_with_aux");
         if (dc.err.empty() && dc.mode == M_HLL && t == 0 && dc.cur_min > 0) count("converted_to_hll4_curmin_gt0");
@@ -270,6 +283,15 @@ void run_case(uint64_t idx, Rng& r) {
   if (T) lg_k = static_cast<unsigned>(r.chance(0.75) ? r.range(4, 14) : r.range(15, 21));
   else lg_k = static_cast<unsigned>(r.range(4, 14));
   if (r.chance(0.25)) lg_k = static_cast<unsigned>(r.range(4, 7));      // extra weight on direct LIST->HLL and early cur-min shifts
+  // two crafted variants:
+  //  bigset: a fixed handful of cases per run (case index 0..7) with lg_k 18..21 kept in coupon mode right up to the
+  //          SET->HLL promotion point (bounds of the coupon-mode estimator with tens of thousands of coupons)
+  //  levels: lg_k 4..7, inputs chosen with the reference hash so that EVERY slot sits at exactly 1, then exactly 2, ...
+  //          (HLL_4: cur_min = v with all slots "at cur_min"), checkpoint and conversions after every input
+  const bool bigset = idx < 8;
+  const bool levels = !bigset && r.chance(0.08);
+  if (bigset) lg_k = 18 + static_cast<unsigned>(idx % 4);
+  if (levels) lg_k = static_cast<unsigned>(r.range(4, 7));
   C.lg_k = lg_k;
   const uint64_t k = 1ULL << lg_k;
   const uint64_t thr = lg_k >= 8 ? (3 * (k >> 3)) / 4 : 8;               // only used to *place* checkpoints and choose lengths
@@ -292,20 +314,43 @@ void run_case(uint64_t idx, Rng& r) {
   }
   if (!T) n = std::min<uint64_t>(n, 300000);
   if (T && !mega) n = std::min<uint64_t>(n, 3000000);
+  uint64_t stop_at = 0;
+  std::vector<uint64_t> cps;          // bigset: checkpoints by number of distinct coupons
+  if (bigset) {
+    n = 2 * thr + 1000;
+    stop_at = idx < 4 ? thr : thr - r.below(60);
+    const uint64_t first = std::min<uint64_t>(15000, stop_at / 2);
+    for (uint64_t i = 0; i < 10; ++i) cps.push_back(first + (stop_at - first) * i / 10);
+  }
+  std::vector<uint64_t> lvl_keys;
+  if (levels) {
+    lvl_keys = level_stream(r, lg_k, static_cast<unsigned>(1 + r.below(3)), static_cast<unsigned>(r.below(4)));
+    for (uint64_t d = r.below(6); d > 0 && lvl_keys.size() > 1; --d) {       // re-presentations of earlier inputs
+      const size_t a = r.below(lvl_keys.size() - 1);
+      const size_t b = a + 1 + r.below(lvl_keys.size() - a);
+      lvl_keys.insert(lvl_keys.begin() + static_cast<long>(b), lvl_keys[a]);
+    }
+    n = lvl_keys.size();
+    C.cp_every = true; C.conv_always = true;
+    count("exact_level_cases");
+  }
   mega = n > 400000;
   static const double dups[] = {0.0, 0.0, 0.1, 0.5, 0.9};
   C.dup_p = dups[r.below(5)];
   if (n > 400000 && C.dup_p > 0.5) C.dup_p = 0.5;
+  if (bigset) C.dup_p = 0.0;
   C.salt = r.next();
   C.fixed_kind = r.chance(0.45) ? -1 : static_cast<int>(r.below(V_NKINDS));
   if (n > 50000 && (C.fixed_kind == V_U8 || C.fixed_kind == V_I8)) C.fixed_kind = V_I64;   // 256 values only: pointless for long streams
   C.domain = r.chance(0.2) ? std::max<uint64_t>(1, n / 3) : (1ULL << 40);
+  if (bigset) { C.domain = 1ULL << 40; C.fixed_kind = r.pick({int(V_U64), int(V_I64), int(V_F64), int(V_STR), int(V_BYTES)}); }
   // injected inputs with rare high coupon values (aux exceptions at small cur_min)
-  const bool do_inject = lg_k <= 12 && n >= 4 && r.chance(0.5);
+  const bool do_inject = !levels && lg_k <= 12 && n >= 4 && r.chance(0.5);
   std::set<uint64_t> used;
   // planted pairs of inputs whose coupons share the full 26-bit address but differ in value: two distinct coupons in
   // LIST/SET mode (in either arrival order), one slot keeping the larger value in HLL mode
-  if (n >= 2 && r.chance(0.4)) {
+  if (levels) for (size_t i = 0; i < lvl_keys.size(); ++i) C.inject.emplace_back(i, lvl_keys[i]);
+  if (!levels && n >= 2 && r.chance(0.4)) {
     const auto& pp = same_address_pairs();
     const uint64_t npairs = 1 + r.below(3);
     for (uint64_t i = 0; i < npairs && !pp.empty(); ++i) {
@@ -343,7 +388,7 @@ void run_case(uint64_t idx, Rng& r) {
   const bool do_reset_history = r.chance(0.12);
   const bool do_recopy = r.chance(0.3);
   const bool shuffle_b = r.coin();
-  C.cfg = "lg_k=" + std::to_string(lg_k) + " n=" + std::to_string(n) + " dup=" + str(C.dup_p) + " kind=" + std::to_string(C.fixed_kind) +
+  C.cfg = std::string(bigset ? "BIGSET " : (levels ? "LEVELS " : "")) + "lg_k=" + std::to_string(lg_k) + " n=" + std::to_string(n) + " dup=" + str(C.dup_p) + " kind=" + std::to_string(C.fixed_kind) +
     " domain=" + std::to_string(C.domain) + " inject=" + std::to_string(C.inject.size()) + " same_addr_pairs=" + std::to_string(C.planted.size()) + " reset_history=" + std::to_string(do_reset_history);
   describe(C.cfg);
   C.m.init(lg_k);
@@ -354,7 +399,10 @@ void run_case(uint64_t idx, Rng& r) {
     K.s.reset(new hll_sketch(static_cast<uint8_t>(lg_k), tgt(type), full));
     C.sks.push_back(std::move(K));
   };
-  if (!mega) {
+  if (bigset) {
+    add_sk(0, false, 0); add_sk(1, false, 0); add_sk(2, false, 0); add_sk(2, false, 1);
+    count("bigset_cases");
+  } else if (!mega) {
     for (int t = 0; t < 3; ++t) for (int f = 0; f < 2; ++f) for (int o = 0; o < 2; ++o) add_sk(t, f != 0, o);
   } else {
     add_sk(0, false, 0); add_sk(1, false, 0); add_sk(2, false, 0); add_sk(0, true, 1); add_sk(2, true, 1); add_sk(0, false, 1);
@@ -381,9 +429,14 @@ void run_case(uint64_t idx, Rng& r) {
   while (C.fed < n) {
     const size_t dc = C.m.distinct.size();
     uint64_t len;
-    const bool dense = !C.m.overflow && (dc < 12 || (lg_k >= 8 && dc + 4 >= thr && dc <= thr + 3));
+    const bool dense = C.cp_every || (!C.m.overflow && (dc < 12 || (lg_k >= 8 && dc + 4 >= thr && dc <= thr + 3)));
+    uint64_t bs_target = 0;
     if (dense) len = 1;
-    else {
+    else if (bigset) {
+      bs_target = stop_at;
+      for (uint64_t t : cps) if (t > dc) { bs_target = t; break; }
+      len = std::max<uint64_t>(1, std::min<uint64_t>(bs_target > dc ? bs_target - dc : 1, thr > dc + 4 ? thr - 4 - dc : 1));
+    } else {
       len = std::max<uint64_t>(1, next_cp > C.fed ? next_cp - C.fed : 1);
       if (!C.m.overflow && lg_k >= 8 && dc + 4 < thr) len = std::min<uint64_t>(len, thr - 4 - dc);
     }
@@ -403,6 +456,8 @@ void run_case(uint64_t idx, Rng& r) {
     for (const Val& v : vals) for (Sk& K : C.sks) if (K.order == 1) apply_update(*K.s, v);
     C.fed += len;
     count("updates", len);
+    if (bigset && C.m.distinct.size() >= stop_at) n = C.fed;     // stop right at (or just below) the promotion point
+    const bool bs_cp = bigset && bs_target != 0 && C.m.distinct.size() >= bs_target;
     bool force = false;
     if (lg_k <= 10) {
       // light poll of the HLL_4 image header: a cur-min shift forces a full checkpoint right away
@@ -412,7 +467,7 @@ void run_case(uint64_t idx, Rng& r) {
         if (d.err.empty() && d.mode == M_HLL && h4->prev_cur_min >= 0 && static_cast<int>(d.cur_min) != h4->prev_cur_min) force = true;
       }
     }
-    if (dense || force || C.fed >= next_cp || C.fed == n) {
+    if (dense || force || bs_cp || (!bigset && C.fed >= next_cp) || C.fed == n) {
       const bool last = C.fed == n;
       if (last) {
         // order C: the whole stream in reverse, fresh sketches, compared at the end only
